@@ -43,6 +43,12 @@ func dispatch(kind string, args []*Sexp) (out *Sexp) {
 	case "encprog":
 		return runEncProg(args)
 	}
+	switch kind {
+	case "symtab":
+		return runSymtab(args)
+	case "disprog":
+		return runDisProg(args)
+	}
 	return L(A("unknown-kind"), A(kind))
 }
 
